@@ -316,3 +316,54 @@ func ZZ_C16_OctreeClosestPointSmall() {
 	}
 	zz.Reach("answered")
 }
+
+// elements with an extent: overlapping boxes (sibling cells of the tree overlap when elements straddle a cell
+// centre, so a point may lie in several children). One box slides along an axis, the query point is free along
+// one axis and takes one of a few values on the others.
+func ZZ_C16_OctreeContainingBoxes() {
+	boxes := []geometry.AABB{
+		geometry.NewAABB(vector3.New(0., 0., 0.), vector3.New(6., 1., 1.)),   // slab along x through the centre
+		geometry.NewAABB(vector3.New(0., 0., 0.), vector3.New(1., 6., 1.)),   // slab along y through the centre
+		geometry.NewAABB(vector3.New(3., 3., 0.), vector3.New(1., 1., 1.)),   // small box in one octant
+		geometry.NewAABB(vector3.New(-3., -3., 0.), vector3.New(2., 2., 4.)), // box in the opposite octant
+		geometry.NewAABB(vector3.New(-3., 3., 1.), vector3.New(1., 1., 1.)),
+	}[:zz.Bound("BOXES")]
+	tv := zz.Float64("e.t")
+	free := geometry.NewAABB(vector3.New(tv, 0.5, 0.25), vector3.New(2., 2., 1.))
+	var els []trees.Element
+	var bounds []geometry.AABB
+	at := zz.Choose("insertAt", len(boxes)+1)
+	for i := 0; i <= len(boxes); i++ {
+		if i == at {
+			els = append(els, trees.BoundingBoxElement(free))
+			bounds = append(bounds, free)
+		}
+		if i < len(boxes) {
+			els = append(els, trees.BoundingBoxElement(boxes[i]))
+			bounds = append(bounds, boxes[i])
+		}
+	}
+	t := tree(els)
+	others := []float64{0.25, 3., -3., 0.5}[:zz.Bound("OTHERS")]
+	q := vector3.New(zz.Float64("q.x"), others[zz.Choose("q.y", len(others))], others[zz.Choose("q.z", 2)])
+	if zz.Bound("QAXES") > 1 && zz.Bool("query varies along y") {
+		q = vector3.New(others[zz.Choose("q.x'", len(others))], zz.Float64("q.y"), others[zz.Choose("q.z'", 2)])
+	}
+	zz.Reach("built")
+	got := t.ElementsContainingPoint(q)
+	for j := range bounds {
+		n := 0
+		for _, g := range got {
+			if g == j {
+				n++
+			}
+		}
+		in := bounds[j].Contains(q)
+		zz.Assert(zz.Implies(in, n == 1), "ElementsContainingPoint(boxes): an element whose bounds contain the point is reported exactly once")
+		zz.Assert(zz.Implies(!in, n == 0), "ElementsContainingPoint(boxes): an element whose bounds do not contain the point is not reported")
+	}
+	for _, g := range got {
+		zz.Assert(g >= 0 && g < len(bounds), "ElementsContainingPoint(boxes): only element indices are reported")
+	}
+	zz.Reach("answered")
+}
